@@ -53,11 +53,15 @@ func (c *serverCodec) Messages() socket.Messages {
 	return c.messages
 }
 
-func (c *serverCodec) ReadRequestHeader(ctx *Context) error {
+func (c *serverCodec) ReadRequestHeader(ctx *Context) (err error) {
 	if atomic.LoadUint32(&c.closed) > 0 {
 		return io.EOF
 	}
-	var err error
+	defer func() {
+		if e := recover(); e != nil {
+			err = errors.New("rpc: malformed request header")
+		}
+	}()
 	var data = ctx.data
 	if c.headerEncoder != nil {
 		req := c.headerEncoder.NewRequest()
